@@ -60,7 +60,13 @@ func (s *ScanMethod) ProcessPacketData(data []byte, _ *gopacket.CaptureInfo) err
 	if err := s.parser.DecodeLayers(data, &s.rcvDecoded); err != nil {
 		return err
 	}
-	if len(s.rcvDecoded) != 2 {
+	if len(s.rcvDecoded) != 2 ||
+		s.rcvDecoded[0] != layers.LayerTypeEthernet || s.rcvDecoded[1] != layers.LayerTypeARP {
+		return nil
+	}
+	// only Ethernet/IPv4 ARP carries a 6-byte hardware and a 4-byte protocol address
+	if s.rcvARP.AddrType != layers.LinkTypeEthernet || s.rcvARP.Protocol != layers.EthernetTypeIPv4 ||
+		len(s.rcvARP.SourceHwAddress) != 6 || len(s.rcvARP.SourceProtAddress) != 4 {
 		return nil
 	}
 
